@@ -354,6 +354,8 @@ def r_DiagonalReplicated(c):
     rep = c["replicates"]
     ia = c["input_axis"] if c["input_axis"] >= 0 else len(ish) + 1 + c["input_axis"]
     oa = ia if c["output_axis"] is None else c["output_axis"]
+    if oa < 0:  # negative values count from the end of the OUTPUT array (rank len(osh) + 1)
+        oa = len(osh) + 1 + oa
     in_sh = ish[:ia] + [rep] + ish[ia:]
     out_sh = osh[:oa] + [rep] + osh[oa:]
 
@@ -563,6 +565,8 @@ def xray3d_geometry(c):
     from scipy.spatial.transform import Rotation
 
     sh, det = c["shape"], c["det_shape"]
+    if "matrices" in c:  # hand-written (views, 2, 4) matrices: M and t of the documented convention
+        return [(np.asarray(Mh, dtype=float)[:, :3], np.asarray(Mh, dtype=float)[:, 3]) for Mh in c["matrices"]]
     vs = np.ones(3) if c["voxel_spacing"] is None else np.asarray(c["voxel_spacing"])
     ds = np.ones(2) if c["det_spacing"] is None else np.asarray(c["det_spacing"])
     R = Rotation.from_euler(c["seq"], np.asarray(c["angles"], dtype=float)).as_matrix()[:, :2, :]
